@@ -12,18 +12,18 @@ VARIABLES l, nbad
 
 FirstDiff(a, b) == CHOOSE i \in 1..Len(a) : a[i] # b[i] /\ \A j \in 1..(i - 1) : a[j] = b[j]
 Why(ev) ==
-  IF ev.e # "stream" THEN "unknown event"
+  IF ev.e # "stream" THEN <<"unknown event">>
   ELSE LET want == M!Run(ev.enc = 1, ev.mode, M!Schedule(ev.key), ev.iv, ev.ins)[1] IN
-       IF Len(ev.outs) # Len(ev.ins) THEN "wrong number of outputs"
+       IF Len(ev.outs) # Len(ev.ins) THEN <<"wrong number of outputs">>
        ELSE IF ev.outs # want THEN <<"output differs from SP 800-38A at block", FirstDiff(ev.outs, want)>>
-       ELSE IF ev.enc = 0 /\ ev.orig # <<>> /\ ev.outs # ev.orig THEN "decryptor does not restore the encryptor's input"
-       ELSE "ok"
+       ELSE IF ev.enc = 0 /\ ev.orig # <<>> /\ ev.outs # ev.orig THEN <<"decryptor does not restore the encryptor's input">>
+       ELSE <<"ok">>
 
 Init == l = 1 /\ nbad = 0
 Next == /\ l <= Len(Events)
         /\ LET ev == Events[l]  w == Why(ev)
-           IN /\ IF w = "ok" THEN TRUE ELSE PrintT(<<"BAD", l, ev.id, w>>)
-              /\ nbad' = nbad + (IF w = "ok" THEN 0 ELSE 1)
+           IN /\ IF w = <<"ok">> THEN TRUE ELSE PrintT(<<"BAD", l, ev.id, w>>)
+              /\ nbad' = nbad + (IF w = <<"ok">> THEN 0 ELSE 1)
         /\ l' = l + 1
 Finished == (l = Len(Events) + 1) => PrintT(<<"DONE", Len(Events), nbad>>)
 Spec == Init /\ [][Next]_<<l, nbad>>
